@@ -513,9 +513,15 @@ def _alias_incompatibilities(
 ) -> Iterable[Breakage]:
     try:
         old_member = old_obj.target if old_obj.is_alias else old_obj  # type: ignore[union-attr]
-        new_member = new_obj.target if new_obj.is_alias else new_obj  # type: ignore[union-attr]
     except (AliasResolutionError, CyclicAliasError):
         logger.debug("API check: %s | %s: skip alias with unknown target", old_obj.path, new_obj.path)
+        return
+    try:
+        new_member = new_obj.target if new_obj.is_alias else new_obj  # type: ignore[union-attr]
+    except (AliasResolutionError, CyclicAliasError):
+        # The alias pointed at an object in the old version, and at nothing anymore:
+        # the object was removed while its re-export stayed behind.
+        yield ObjectRemovedBreakage(old_obj, old_obj, None)  # type: ignore[arg-type]
         return
 
     yield from _type_based_yield(old_member, new_member, seen_paths=seen_paths)
